@@ -578,23 +578,23 @@ func (w *World) loadCondAtoms(verifDir string) {
 // decidesOnKnownInputs: every field/call the condition reads is a known decision input of
 // the reviewed function(s) `host` (and there is at least one).
 func (w *World) decidesOnKnownInputs(verifDir, host string, a *Atoms) bool {
-	w.loadCondAtoms(verifDir)
 	as := condAtomsOfExpr(a)
-	if len(as) == 0 {
-		return false
-	}
+	return len(as) > 0 && len(w.unknownInputs(verifDir, host, a)) == 0
+}
+
+// unknownInputs: the decision inputs of a that the reviewed function(s) never branched on.
+func (w *World) unknownInputs(verifDir, host string, a *Atoms) []string {
+	w.loadCondAtoms(verifDir)
+	set := map[string]bool{}
 	for _, h := range hostParts(host) {
 		known := w.condAtoms[h]
-		if known == nil {
-			return false
-		}
-		for _, x := range as {
-			if !known[x] {
-				return false
+		for _, x := range condAtomsOfExpr(a) {
+			if known == nil || !known[x] {
+				set[x] = true
 			}
 		}
 	}
-	return true
+	return keys(set)
 }
 
 // hostPos: where, inside fi's own declaration, node n takes effect: n's own position when
